@@ -1108,7 +1108,8 @@ fn get_wrapping_or_insert<'w, D: TextDecorator>(
 ) -> &'w mut WrappedBlock<Vec<D::Annotation>> {
     wrapping.get_or_insert_with(|| {
         let wwidth = match options.wrap_width {
-            Some(ww) => ww.min(width),
+            // Text can't be wrapped to zero columns.
+            Some(ww) => ww.max(1).min(width),
             None => width,
         };
         WrappedBlock::new(
